@@ -29,6 +29,14 @@ def gen(rnd):
         vel = [vel[0]] * nlay
     X = rnd.choice([0.5, 1.0, 2.0, 3.5, 6.0, 10.0])
     angle = rnd.choice([rnd.uniform(0.5, 89.5), rnd.uniform(1, 30), rnd.uniform(60, 89.9), 45.0, 30.0])
+    if rnd.random() < 0.15:
+        # a finely layered velocity gradient: many thin layers whose velocities differ by a few parts per million
+        nlay = rnd.randint(8, 40)
+        inter = list(numpy.cumsum([0.125] * nlay))
+        v0, dv = rnd.choice([1.0, 2.0, 3.0]), rnd.choice([2.0 ** -20, 2.0 ** -18, 2.0 ** -17])
+        vel = [v0 * (1.0 + k * dv) for k in range(nlay)]
+        X = rnd.choice([2.0, 6.0, 10.0])
+        angle = rnd.choice([20.0, 30.0, 45.0])
     dtype = "float"
     if rnd.random() < 0.2:
         # a velocity model given in whole units (e.g. m/s) as an integer array
